@@ -408,7 +408,7 @@ def run_part_a(spec, o):
                     break
     # ---- the experiment is continued at another path (what Tuner.load does on a different machine: tuner_path is recomputed,
     # the callback objects travel with the tuner) with a relaxed criterion: the table keeps the rows of the first part
-    if not sim and r.exc is None and st is not None and rows and random.Random(spec["seed"] + 5).random() < 0.35:
+    if not sim and r.exc is None and st is not None and rows and not p.get("abort_by_failures") and random.Random(spec["seed"] + 5).random() < 0.35:
         from pathlib import Path
 
         from syne_tune import StoppingCriterion
